@@ -116,7 +116,14 @@ def wide_input_cases(rep, rng, n):
         s1, s2 = int(i1["status"][0]), int(i2["status"])
         v1, v2 = float(i1["value"][0]), float(i2["value"])
         c1, c2 = a1.data(), a2.data()
-        same = s1 == s2 and v1 == v2 and all(np.array_equal(c1[f], c2[f]) for f in c1)
+        # contents: everything must be identical, except that under CMA-MAE the new threshold is computed by two different (documented)
+        # expressions in the two paths -- ratio*t + mean*(1-ratio) vs t*(1-lr) + f*lr -- which may round differently (a few ulp)
+        def same_field(f):
+            if f == "threshold" and spec.get("tmin") is not None:
+                a, b = c1[f].astype(np.float64), c2[f].astype(np.float64)
+                return a.shape == b.shape and bool(np.all(np.abs(a - b) <= 8 * np.spacing(np.maximum(np.abs(a), np.abs(b)).astype(np.float32)).astype(np.float64)))
+            return np.array_equal(c1[f], c2[f])
+        same = s1 == s2 and v1 == v2 and all(same_field(f) for f in c1)
         if not same:
             rep.violation("add on a batch of one and add_single disagree for a float64 objective in a float32 archive: objective %r, cell threshold %r: "
                           "add -> status %d value %r, add_single -> status %d value %r" % (obj, thr, s1, v1, s2, v2),
